@@ -64,6 +64,10 @@ def gen_cases(tier, seed):
              "probe_dict": (not node) and cyc and rng.random() < 0.4, "pending": rng.random() < 0.35, "eps": rng.choice([None, None, 0.1, 0.25, 1.0])}
         if queued:
             c["pending"] = True; c["oo"] = {"optimize_with_safe_sequences_fix_via_bounds": True}
+        r_np = gen.rng_for("C18np", seed, i)
+        if r_np.random() < 0.15 and max([x for x in base["flow"].values() if x is not None] or [0]) <= 200:
+            # the caller's graph carries numpy scalars (built from an array): they are the caller's objects too - same values AND same types afterwards
+            c["spec"]["np_type"] = r_np.choice(["int64", "uint8", "int32", "uint16"])
         if (rng.random() < 0.4 or "external_safe_paths" in oo_) and base["planted"]:
             c["cons"] = gen.jl(I.constraints_from_planted(rng, base, n=1))
         elems = base["nodes"] if node else base["edges"]
@@ -90,6 +94,9 @@ def gen_cases(tier, seed):
     for i in range(16 if tier == "quick" else 160):
         # the caller goes on using (and editing) its own argument objects after it has constructed the model
         cases.append({"kind": "postedit", "rs": f"C18pe:{seed}:{i}"})
+    for i in range(16 if tier == "quick" else 120):
+        # the same search object solved again (or solved for the first time after get_lowerbound_k()) later than its time limit
+        cases.append({"kind": "lateresolve", "cls": ["MinFlowDecompCycles", "MinFlowDecomp", "MinPathCover", "MinPathCoverCycles"][i % 4], "rs": f"C18late:{seed}:{i}", "lb_first": (i // 4) % 2 == 1})
     for i in range(6 if tier == "quick" else 60):
         # models of one process that ask for different numbers of solver threads (own worker group: the HiGHS task scheduler is process-wide)
         cases.append({"kind": "threads", "rs": f"C18thr:{seed}:{i}", "group": "mix"})
@@ -407,7 +414,53 @@ def run_postedit(case):
     return {"viol": viol, "obs": dict(obs), "nontrivial": True, "keys": [hashlib.sha1(desc.encode()).hexdigest()[:14]], "sample": {"postedit": cls}}
 
 
+def run_lateresolve(case):
+    """a search model with a (short) time limit is solved, the caller does something else for longer than that limit, and solves the SAME object
+    again (or asks for the lower bound first and calls solve() later): every solve() has the full limit for itself, so the tiny instance is solved
+    both times with the same answer. No verdict if a run really used up its limit."""
+    import time as _t
+    viol = []; obs = collections.Counter()
+    rng = gen.rng_for(case["rs"]); cls = case["cls"]; cyc = cls.endswith("Cycles")
+    base = I.cyc_edge_base(rng, wt="int", max_edges=6) if cyc else I.dag_edge_base(rng, wt="int", max_edges=7)
+    G = gen.build(I.spec_of(base)); lim = 1.5
+    kw = {"solver_options": {"threads": 1, "time_limit": lim}}
+    if "FlowDecomp" in cls:
+        kw.update(flow_attr="flow", weight_type=int)
+        if rng.random() < 0.5:
+            kw["optimization_options"] = rng.choice([{"use_min_gen_set_lowerbound": True}, {"optimize_with_guessed_weights": True}, {"optimize_with_greedy": False} if not cyc else {"optimize_with_safe_sequences": False}])
+    desc = f"{cls} edges={[(u, v, d.get('flow')) for u, v, d in G.edges(data=True)]} kw={ {k_: v_ for k_, v_ in kw.items() if k_ != 'solver_options'} } time_limit={lim}"
+    r = M.safe_call(getattr(fp, cls), G, **kw)
+    if r[0] != "ok":
+        return {"viol": [], "obs": {"c18.lateresolve_ctor_failed": 1}, "nontrivial": False}
+    m = r[1]
+    first_lb = case.get("lb_first")
+    def one(tagname):
+        t0 = _t.perf_counter(); s_ = M.safe_call(m.solve); dt = _t.perf_counter() - t0
+        ok = s_[0] == "ok" and M.safe_call(m.is_solved) == ("ok", True)
+        return ok, dt, (len(models.routes_of(m.get_solution()) or []) if ok else None), s_
+    if first_lb:
+        M.safe_call(m.get_lowerbound_k); obs["c18.lateresolve_lowerbound_first"] += 1
+    else:
+        ok1, dt1, n1, s1 = one("first")
+        if not ok1:
+            return {"viol": [], "obs": {"c18.lateresolve_first_unsolved": 1}, "nontrivial": False}
+    _t.sleep(lim + 0.4)
+    ok2, dt2, n2, s2 = one("late")
+    obs["c18.lateresolve_pairs"] += 1
+    if not ok2:
+        if dt2 >= 0.5 * lim:
+            obs["c18.lateresolve_time_limited"] += 1
+        else:
+            viol.append({"sig": f"C18/solve-long-after-" + ("get_lowerbound_k" if first_lb else "an-earlier-solve") + f"-is-unsolved/{cls}",
+                         "msg": f"solve() {lim + 0.4:.1f} s after " + ("get_lowerbound_k()" if first_lb else f"a first solve() (solved, {n1} routes)") + f" returned {s2[1:]} after {dt2:.3f} s, is_solved False; {desc}"})
+    elif not first_lb and n2 != n1:
+        viol.append({"sig": f"C18/second-solve-changes-result/{cls}/late", "msg": f"{n1} routes, later {n2}; {desc}"})
+    return {"viol": viol, "obs": dict(obs), "nontrivial": True, "keys": [hashlib.sha1(desc.encode()).hexdigest()[:14]], "sample": {"lateresolve": desc[:300]}}
+
+
 def run_case(case):
+    if case.get("kind") == "lateresolve":
+        return run_lateresolve(case)
     if case.get("kind") == "postedit":
         return run_postedit(case)
     if case.get("kind") == "threads":
